@@ -315,8 +315,10 @@ def gen_history(rng, n_ops=14):
         else:
             ops.append(["fclear", rng.choice(funcs)["name"]])
     hist = {"funcs": funcs, "pool": pool, "ops": ops}
+    if rng.random() < 0.3:
+        hist["verbose"] = rng.choice([1, 1, 2, 11, 60])     # 1 = Memory's default verbosity (messages go to a discarded stdout)
     if rng.random() < 0.2:
-        hist["verbose"] = 1          # Memory's default verbosity (messages go to a discarded stdout)
+        hist["pickled_wrappers"] = True      # the cached wrappers went through pickle (as when they are sent to workers)
     if rng.random() < 0.15:
         # the same functions cached at two store locations by the same processes
         hist["two_locations"] = True
@@ -454,8 +456,15 @@ def session(root, hist, start, t0, compress):
     def get(name, cb=False, loc=0):
         tab = cachedcb if cb else cached
         if (name, loc) not in tab:
-            tab[(name, loc)] = mems[loc].cache(resolve_target(umod, name), ignore=ignore.get(name) or None,
-                                              cache_validation_callback=expires_after(seconds=100) if cb else None)
+            wr = mems[loc].cache(resolve_target(umod, name), ignore=ignore.get(name) or None,
+                                 cache_validation_callback=expires_after(seconds=100) if cb else None)
+            if hist.get("pickled_wrappers"):
+                import pickle
+                try:
+                    wr = pickle.loads(pickle.dumps(wr))
+                except Exception:  # noqa  (closures, bound methods of module objects ...: keep the original)
+                    pass
+            tab[(name, loc)] = wr
         return tab[(name, loc)]
     umod.REC = lambda *a_, **k_: get("rec")(*a_, **k_)
     vals = _values(hist["pool"])
